@@ -38,6 +38,17 @@ def check_params(ctx, spec, root, tag, model_out):
             ctx.diverge('builder:parameters', full_case, {k: a.get(k)}, {k: m.get(k)})
     elif impl['error'] != model_out['error'] and not (impl['error'].startswith('other') or model_out['error'] in ('not_found', 'ambiguous')):
         ctx.diverge('builder:error-kind', full_case, impl['error'], model_out['error'])
+    # ---- the same config tree and context built a second time in this process: construction has no memory (context files,
+    #      used contexts and config files are read again and give the same chain)
+    if 'ok' in impl and spec.get('ctx_kind') in ('file', 'uses', 'list'):
+        again = builder.build_impl(spec, b, root / (tag + '_data2'))
+        ctx.count('built-twice')
+        a1 = {t['full']: t['params'] for t in impl['ok']}
+        a2 = {t['full']: t['params'] for t in again.get('ok', [])}
+        if a1 != a2:
+            bad = [n for n in a1 if a1[n] != a2.get(n)]
+            ctx.fail('building the same config with the same context a second time gives other parameter values', full_case,
+                     {'tasks': bad[:4], 'first': [a1[n] for n in bad[:2]], 'second': [a2.get(n) for n in bad[:2]], 'error': again.get('error')})
     # ---- oracle: reference parameter table
     ref = ref_build(spec, b)
     if 'error' in ref:
